@@ -538,6 +538,15 @@ def trajectory_rules(ctx, rule='R4'):
     one_shot_rules(ctx, rule, [TRJ])
     p4 = m.func(TRJ, 'Poly4D.pack')
     seq = [norm(s.value) for s in p4.node.body if isinstance(s, ast.AugAssign)]
+    if not seq:
+        # ... or the pieces joined in one expression: return bytearray(b''.join((E1, E2, ..)))
+        for r_ in [s for s in p4.node.body if isinstance(s, ast.Return) and s.value is not None]:
+            v_ = r_.value
+            if isinstance(v_, ast.Call) and norm(v_.func) in ('bytearray', 'bytes') and len(v_.args) == 1:
+                v_ = v_.args[0]
+            if isinstance(v_, ast.Call) and isinstance(v_.func, ast.Attribute) and v_.func.attr == 'join' and isinstance(v_.func.value, ast.Constant) and v_.func.value.value == b'' and \
+                    len(v_.args) == 1 and isinstance(v_.args[0], (ast.Tuple, ast.List)):
+                seq = [norm(e_) for e_ in v_.args[0].elts]
     ctx.inst(rule, p4, 'poly4d-layout', seq == ["struct.pack('<ffffffff', *self.x.values)", "struct.pack('<ffffffff', *self.y.values)", "struct.pack('<ffffffff', *self.z.values)",
                                                 "struct.pack('<ffffffff', *self.yaw.values)", "struct.pack('<f', self.duration)"], 'Poly4D = 8 floats for x, y, z, yaw then duration')
 
@@ -683,7 +692,10 @@ def quaternion_rules(ctx, rule='R3'):
         len(ms) == 1 and norm(ms[0].value) in ('1.0 / np.sqrt(2)', '1 / np.sqrt(2)', '1.0 / math.sqrt(2)')
     ctx.inst(rule, cq, 'writer-scale', okw, 'magnitude = round(511 * |q| / (1/sqrt2))')
     rq = [s for s in walk_own(rl[0]) if isinstance(s, ast.Assign) and norm(s.targets[0]) == 'q[%s]' % norm(rl[0].target)]
-    ctx.inst(rule, dq, 'reader-scale', any(norm(s.value) in ('mag / mask / np.sqrt(2)', 'mag / mask / math.sqrt(2)') for s in rq), 'component = magnitude / 511 / sqrt2')
+    # (the component may be worked out in a local that is stored into q[i] afterwards)
+    carried = {norm(s.value) for s in rq if isinstance(s.value, ast.Name)}
+    rq2 = rq + [s for s in walk_own(rl[0]) if isinstance(s, ast.Assign) and norm(s.targets[0]) in carried]
+    ctx.inst(rule, dq, 'reader-scale', any(norm(s.value) in ('mag / mask / np.sqrt(2)', 'mag / mask / math.sqrt(2)') for s in rq2), 'component = magnitude / 511 / sqrt2')
     ns = [s for s in walk_own(wl[0]) if isinstance(s, ast.Assign) and norm(s.targets[0]) == 'negbit']
     ng = [s_ for s_ in cq.node.body if isinstance(s_, ast.Assign) and norm(s_.targets[0]) == 'negate']
     ctx.inst(rule, cq, 'negate=sign-of-largest', len(ng) == 1 and canon_test(ng[0].value) == canon_test(ast.parse('quat_n[i_largest] < 0', mode='eval').body),
